@@ -17,6 +17,19 @@ from opalg_trees import vals
 
 
 KNOWN_NEG_INDEX = "freeze-slice-negative-index"
+KNOWN_DREP_OA = "diagonal-replicated-output-axis"
+
+
+def drep_oa_still_fails(env):
+    """witness: DiagonalReplicated(A: (3,)->(2,), 4, output_axis=-1) declares (4, 2) and returns (2, 4)"""
+    jnp, linop = env.jnp, env.linop
+    A = linop.MatrixOperator(jnp.ones((2, 3), dtype="float64"))
+    try:
+        R = linop.DiagonalReplicated(A, 4, input_axis=0, output_axis=-1, map_type="vmap")
+        y = R(jnp.ones(R.input_shape, dtype="float64"))
+    except Exception:  # noqa: BLE001
+        return False
+    return tuple(R.output_shape) != tuple(y.shape)
 
 
 def neg_index_still_fails(env):
@@ -221,6 +234,53 @@ def cases(env, rng, thorough=False, parts=("stacks", "freeze", "circ", "conv")):
                             f = {"shape": {"declared": [G.lst(R.input_shape), G.lst(R.output_shape)], "documented": [list(full_in), list(full_out)]}, "what": "DiagonalReplicated"}
                         yield (f"DiagonalReplicated{insh}->{outsh} x{rep} ia={ia} oa={oa} c={cplx}", ("drep", insh, outsh, rep, ia, oa, cplx),
                                f or check_op(env, R, W, "DiagonalReplicated"))
+    # output_axis: a negative value counts from the end (as input_axis does), a value outside [-(d+1), d] is rejected at
+    # construction.  Known finding diagonal-replicated-output-axis while fixes/opalg-15 is not applied.
+    for cplx in ((False,) if "stacks" in parts else ()):
+        insh, outsh = (3,), (2,)
+        Gm = vals(rng, (2, 3), cplx).astype(np.complex128)
+        Gj = jnp.asarray(Gm.real, dtype="float64")
+        A = linop.LinearOperator(input_shape=insh, output_shape=outsh, eval_fn=lambda x, Gj=Gj: Gj @ x, adj_fn=lambda y, Gj=Gj: Gj.T @ y,
+                                 input_dtype=np.dtype("float64"), output_dtype=np.dtype("float64"))
+        rep = 2
+        for oa in (-1, -2, -3, 2):
+            name, key = f"DiagonalReplicated output_axis={oa}", ("drep-oa", oa)
+            oan = oa if oa >= 0 else len(outsh) + 1 + oa
+            valid = 0 <= oan <= len(outsh)
+            try:
+                R = linop.DiagonalReplicated(A, rep, input_axis=0, output_axis=oa, map_type="vmap")
+            except ValueError:
+                yield (name, key, None if not valid else {"constructor_raised": "ValueError", "known_id": KNOWN_DREP_OA, "what": "DiagonalReplicated"})
+                continue
+            except Exception as ex:  # noqa: BLE001
+                yield (name, key, {"constructor_raised": repr(ex)[:200], "what": "DiagonalReplicated"})
+                continue
+            if not valid:
+                f = {"accepted_out_of_range_output_axis": oa, "declared_output_shape": G.lst(R.output_shape), "known_id": KNOWN_DREP_OA, "what": "DiagonalReplicated"}
+                try:
+                    R(jnp.ones(R.input_shape, dtype="float64"))
+                except Exception as ex:  # noqa: BLE001
+                    f["evaluation_on_declared_input_raised"] = repr(ex)[:160]
+                yield (name, key, f)
+                continue
+            full_in, full_out = (rep,) + insh, outsh[:oan] + (rep,) + outsh[oan:]
+            W = np.zeros((int(np.prod(full_out)), int(np.prod(full_in))), dtype=np.complex128)
+            for j in range(W.shape[1]):
+                x = np.zeros(W.shape[1], dtype=np.complex128)
+                x[j] = 1
+                X = x.reshape(full_in)
+                W[:, j] = np.stack([Gm.real @ X[k] for k in range(rep)], axis=oan).ravel()
+            f = None
+            if G.lst(R.output_shape) != list(full_out):
+                f = {"shape": {"declared_output_shape": G.lst(R.output_shape), "documented": list(full_out)}, "what": "DiagonalReplicated"}
+                try:
+                    f["shape"]["returned"] = G.lst(R(jnp.ones(R.input_shape, dtype="float64")).shape)
+                except Exception as ex:  # noqa: BLE001
+                    f["shape"]["evaluation_raised"] = repr(ex)[:160]
+            f = f or check_op(env, R, W, "DiagonalReplicated")
+            if f:
+                f["known_id"] = KNOWN_DREP_OA
+            yield (name, key, f)
     # ---- freeze, Function.slice / join -----------------------------------------------------
     for cplx in ((False, True) if "freeze" in parts else ()):
         dt = "complex128" if cplx else "float64"
